@@ -115,6 +115,9 @@ struct Inner {
     write_fault_call: Option<usize>,
     write_fault_after_bytes: Option<usize>,
     flush_fault_call: Option<usize>,
+    /// transient: exactly this write / flush call returns ErrorKind::Interrupted once, nothing is consumed
+    write_interrupt_call: Option<usize>,
+    flush_interrupt_call: Option<usize>,
     shutdown_mode: ShutdownMode,
     shutdown_seen: bool,
     t0: Instant,
@@ -174,6 +177,8 @@ pub fn pipe(cfg: PipeCfg) -> (PipeWriter, PipeReader, Pipe) {
         write_fault_call: None,
         write_fault_after_bytes: None,
         flush_fault_call: None,
+        write_interrupt_call: None,
+        flush_interrupt_call: None,
         shutdown_mode: ShutdownMode::Ok,
         shutdown_seen: false,
         t0: Instant::now(),
@@ -230,6 +235,18 @@ impl Pipe {
         let mut g = self.0.lock().unwrap();
         let base = g.flush_calls;
         g.flush_fault_call = Some(base + n);
+    }
+    /// The n-th write call from now returns ErrorKind::Interrupted once (a legal transient result), consuming nothing.
+    pub fn set_write_interrupt_call(&self, n: usize) {
+        let mut g = self.0.lock().unwrap();
+        let base = g.write_calls;
+        g.write_interrupt_call = Some(base + n);
+    }
+    /// The n-th flush call from now returns ErrorKind::Interrupted once.
+    pub fn set_flush_interrupt_call(&self, n: usize) {
+        let mut g = self.0.lock().unwrap();
+        let base = g.flush_calls;
+        g.flush_interrupt_call = Some(base + n);
     }
     pub fn set_shutdown_mode(&self, m: ShutdownMode) {
         self.0.lock().unwrap().shutdown_mode = m;
@@ -432,6 +449,13 @@ impl AsyncWrite for PipeWriter {
     ) -> Poll<io::Result<usize>> {
         let mut g = self.p.0.lock().unwrap();
         let call = g.write_calls;
+        if g.write_interrupt_call == Some(call) && !data.is_empty() {
+            g.write_interrupt_call = None;
+            g.write_calls += 1;
+            let t = g.t_ms();
+            g.log.push(Ev::WriteErr { t_ms: t });
+            return Poll::Ready(Err(io::Error::new(io::ErrorKind::Interrupted, "interrupted")));
+        }
         let broken = g.w_closed
             || g.r_dropped
             || g.write_fault_call.map(|n| call >= n).unwrap_or(false)
@@ -533,6 +557,11 @@ impl AsyncWrite for PipeWriter {
         let call = g.flush_calls;
         g.flush_calls += 1;
         let t = g.t_ms();
+        if g.flush_interrupt_call == Some(call) {
+            g.flush_interrupt_call = None;
+            g.log.push(Ev::Flush { t_ms: t, ok: false });
+            return Poll::Ready(Err(io::Error::new(io::ErrorKind::Interrupted, "interrupted")));
+        }
         let fail = g.flush_fault_call.map(|n| call >= n).unwrap_or(false) || g.r_dropped;
         g.log.push(Ev::Flush { t_ms: t, ok: !fail });
         if fail {
